@@ -80,7 +80,8 @@ def main():
                 except Exception:
                     pass
             results[p] = {"exit": c.returncode, "violations": len(viol), "first": detail, "summary": lines[-1][:200] if lines else "", "wall_s": round(time.time() - t0, 1)}
-            shutil.rmtree(os.path.join(HERE, "replays", p), ignore_errors=True)
+            if not os.environ.get("VF_OUT_DIR"):
+                shutil.rmtree(os.path.join(HERE, "replays", p), ignore_errors=True)
         meta["checks"] = results
         meta["caught_by"] = [p for p, r_ in results.items() if r_["exit"] == 1]
         print(json.dumps({k: meta[k] for k in ("name", "property", "confirmed", "tests_passed", "tests_failed_beyond_baseline", "demo_clean_exit", "demo_mutant_exit", "caught_by")}, indent=1))
@@ -97,7 +98,8 @@ def main():
     finally:
         sh(f"git -C /repo worktree remove --force {wt}")
         # evidence files were rewritten by the runs against the mutant: restore the committed ones
-        sh(f"cd {HERE} && git checkout -- evidence")
+        if not os.environ.get("VF_OUT_DIR"):
+            sh(f"cd {HERE} && git checkout -- evidence")
     return 0
 
 
